@@ -231,6 +231,17 @@ Byte:
 			// Ignoring error because this scanner cannot produce errors.
 			advance, _, _ := textseg.ScanGraphemeClusters(buf[i:], true)
 
+			// A cluster must not swallow the bytes that delimit the string:
+			// after e.g. a Unicode "prepend" character (U+0600) the closing
+			// quote, a backslash or a control character would otherwise be
+			// treated as part of the previous character.
+			for j := 1; j < advance; j++ {
+				if c := buf[i+j]; c == '"' || c == '\\' || c < 32 {
+					advance = j
+					break
+				}
+			}
+
 			p.Pos.Byte += advance
 			p.Pos.Column++
 			i += advance
